@@ -4,8 +4,10 @@ import (
 	"fmt"
 	"math/big"
 	"strconv"
+	"strings"
 
 	"verifsim/engine"
+	"verifsim/gtier"
 	"verifsim/ops"
 	"verifsim/oracle"
 	"verifsim/rollup"
@@ -23,6 +25,7 @@ type C08 struct {
 	base
 	ins, del *rollup.Circuit
 	poolW    int
+	dummy    map[string]*gtier.System
 }
 
 func init() { register(&C08{base: base{id: "C08", level: "exploration"}, poolW: -1}) }
@@ -93,6 +96,62 @@ func grind(t *tape.Tape, m *oracle.Tree, idx uint64, maxTries int) (*big.Int, bo
 		}
 	}
 	return nil, false
+}
+
+// grindDigest searches for a last commitment under which the Keccak digest of the whole packing starts with a
+// zero byte (one batch in 256 has such a digest by itself): the helper's hash is then shorter than 32 bytes.
+func grindDigest(t *tape.Tape, m *oracle.Tree, start uint32, pre *big.Int, earlier []*big.Int, idx uint64, maxTries int) (*big.Int, bool) {
+	base := t.BigBelow(oracle.R)
+	for i := 0; i < maxTries; i++ {
+		v := new(big.Int).Add(base, big.NewInt(int64(i)))
+		v.Mod(v, oracle.R)
+		if v.Sign() == 0 {
+			continue
+		}
+		c := m.Clone()
+		c.Set(idx, v)
+		cs := append(append([]*big.Int{}, earlier...), v)
+		if oracle.Keccak256(oracle.InsertionPacking(start, pre, c.Root(), cs))[0] == 0 {
+			return v, true
+		}
+	}
+	return nil, false
+}
+
+// proverPath: "consequently the emitted parameters are provable" is observed at the repository's own prover entry
+// point too (shape validation, whatever checks it makes on the stated hash, witness construction, solver, Groth16
+// prover on gnark DummySetup keys for the same compiled system): always when the digest of the packing starts with a
+// zero byte, otherwise for one batch in twelve.
+func (c *C08) proverPath(x *engine.Ctx, t *tape.Tape, cc *rollup.Circuit, digest []byte, iw *oracle.InsertionWitness, dw *oracle.DeletionWitness) *engine.Violation {
+	short := digest[0] == 0
+	if short {
+		x.S.Count("probe:input_hash_digest_starts_with_zero_byte")
+	}
+	if !short && !t.Chance(1, 12) {
+		return nil
+	}
+	if c.dummy == nil {
+		c.dummy = map[string]*gtier.System{}
+	}
+	ds := c.dummy[cc.Key()]
+	if ds == nil {
+		var err error
+		if ds, err = gtier.DummySystem(cc.Mode, cc.Depth, cc.Batch, cc.Raw()); err != nil {
+			panic("DummySetup: " + err.Error())
+		}
+		c.dummy[cc.Key()] = ds
+	}
+	err := ds.ProveErr(iw, dw)
+	x.S.Eval(1)
+	x.S.Count("prover_path_calls")
+	if err != nil {
+		cause := "ordinary-digest"
+		if short {
+			cause = "digest-shorter-than-32-bytes"
+		}
+		return engine.Violatef("C08/sequencer-parameters-refused-by-prover/"+cause, "%s: the helper's hash equals the contract packing's and the compiled circuit accepts the batch, but Prove%s refuses it: %s (digest 0x%x)", cc.Key(), strings.Title(cc.Mode), firstLine(err.Error()), digest)
+	}
+	return nil
 }
 
 func toBig(xs []big.Int) []*big.Int {
@@ -198,6 +257,7 @@ func (c *C08) Run(x *engine.Ctx) *engine.Violation {
 	n := t.Range(3, 8)
 	for b := 0; b < n; b++ {
 		wantShortPost := t.Chance(1, 2)
+		wantShortDigest := t.Chance(1, 4)
 		if mode == rollup.Insertion {
 			if next+uint64(batch) > size {
 				break
@@ -207,7 +267,12 @@ func (c *C08) Run(x *engine.Ctx) *engine.Violation {
 			comms := make([]*big.Int, batch)
 			for i := 0; i < batch; i++ {
 				comms[i] = rollup.RandomCommitment(t)
-				if i == batch-1 && wantShortPost {
+				if i == batch-1 && wantShortDigest {
+					if g, ok := grindDigest(t, model, uint32(next), &p.PreRoot, comms[:i], next+uint64(i), 400); ok {
+						comms[i] = g
+						x.S.Count("fault:grind-input-hash-digest-into-leading-zero-byte")
+					}
+				} else if i == batch-1 && wantShortPost {
 					if g, ok := grind(t, model, next+uint64(i), 400); ok {
 						comms[i] = g
 						x.S.Count("fault:grind-post-root-into-leading-zero-byte")
@@ -246,6 +311,9 @@ func (c *C08) Run(x *engine.Ctx) *engine.Violation {
 			}
 			if v := cc.Attempt(rollup.AssignInsertion(w), rollup.Honest); !v.Accepted {
 				return engine.Violatef("C08/helper=insertion/circuit-rejects-sequencer-parameters", "depth %d batch %d start %d: %s", depth, batch, next, firstLine(v.Err))
+			}
+			if v := c.proverPath(x, t, cc, oracle.Keccak256(oracle.InsertionPacking(p.StartIndex, &p.PreRoot, &p.PostRoot, comms)), w, nil); v != nil {
+				return v
 			}
 			next += uint64(batch)
 		} else {
@@ -308,6 +376,9 @@ func (c *C08) Run(x *engine.Ctx) *engine.Violation {
 			}
 			if v := cc.Attempt(rollup.AssignDeletion(w), rollup.Honest); !v.Accepted {
 				return engine.Violatef("C08/helper=deletion/circuit-rejects-sequencer-parameters", "depth %d batch %d indices %v: %s", depth, batch, p.DeletionIndices, firstLine(v.Err))
+			}
+			if v := c.proverPath(x, t, cc, oracle.Keccak256(oracle.DeletionPacking(p.DeletionIndices, &p.PreRoot, &p.PostRoot)), nil, w); v != nil {
+				return v
 			}
 			// refill so that the next batch has something to delete, grinding the refill so the next pre-root is short
 			for len(model.Leaves) < batch+1 && next < size {
